@@ -642,10 +642,13 @@ pub fn scenario(name: &str, params: &Value) -> Scenario {
                         sys.classes.push("TransientReadError".into());
                         let tk = sys.w.wire.borrow().transient_kind;
                         sys.w.read_error_once(tk);
+                        sys.sync();
                         let mut rest = base[k..].to_vec();
                         rest.extend(SPacket::Pingresp.encode());
-                        sys.w.deliver(rest);
-                        sys.sync();
+                        if !sys.dead {
+                            sys.w.deliver(rest);
+                            sys.sync();
+                        }
                     }
                 } else if mode == 0 {
                     // end-of-stream / read error at every byte offset of a packet, both chunkings
